@@ -331,6 +331,23 @@ def c02e(tree, ob):
 
 
 def c02d(tree, ob):
+    # the payload is decoded as an administrative record only when it is a whole one, and a record this node cannot
+    # interpret stays opaque (as undecodable block-type-specific data does) instead of making the bundle undecodable
+    fb = FuncView(tree, BUNDLE, 'Bundle.post_dissect')
+    for c in calls_in(fb.func):
+        if (call_name(c) or '').split('.')[-1] == 'AdminRecord':
+            facts = fb.facts(c) or frozenset()
+            if not any(p is False and t.endswith('PrimaryBlock.Flag.IS_FRAGMENT') for (t, p) in facts):
+                ob.violate(BUNDLE, fb.qual, src(c) + ' for a fragment', 'the payload of a fragment, which is only a part of the record, is decoded as an administrative record: decoding raises (the fragment '
+                           'is lost and a fragmented status report never reassembles) or mis-parses and replaces the payload', c)
+            else:
+                ob.site(BUNDLE, c, 'admin record decoded for whole bundles only')
+            tr = enclosing(c, (ast.Try,))
+            if tr is None or not tr.handlers:
+                ob.violate(BUNDLE, fb.qual, src(c) + ' unguarded', 'a record this node cannot interpret (reason code outside the local enumeration, more status items) raises out of Bundle(data): the '
+                           'exception leaves the convergence layer callback and a node that only forwards the report loses it', c)
+            else:
+                ob.site(BUNDLE, tr, 'an uninterpretable record stays opaque')
     fe = FuncView(tree, BLOCKS, 'CanonicalBlock.ensure_block_type_specific_data')
     stores = [n for n in walk_local(fe.func) if isinstance(n, ast.Assign) and pm("self.fields['btsd']", n.targets[0]) is not None]
     s = one(stores, 'regeneration of the encoded block data', ob)
